@@ -10,7 +10,7 @@ try:
     binary = drv.build("CANARY", cfg, "/repo", tmp)
     if not binary:
         sys.exit(2)
-    N = 6000
+    N = 10000
     extra = dict(VERIF_MODE="explore", VERIF_SEED="3", VERIF_FROM="0", VERIF_TO=str(N), VERIF_STRIDE="1", VERIF_RECHECK="0",
                  VERIF_KNOWN="race@no-golibs-frame", VERIF_HASHFILE=os.path.join(tmp, "hashes"))
     p, errf = drv.start_worker(binary, cfg, tmp, "c", extra)
@@ -27,16 +27,19 @@ try:
         st[0] += 1
         st[1] += 0 if f[4] == "-" else 1
     names = {0: "mutex (yield inside the critical section)", 1: "unsynchronised", 2: "channel hand-over", 3: "unsynchronised, tasks strictly sequential",
-             4: "simulated pool hand-over", 5: "use after Put into the simulated pool"}
+             4: "simulated pool hand-over", 5: "use after Put into the simulated pool",
+             6: "simulated mutex (yield inside the critical section)", 7: "simulated mutex, one task skips it",
+             8: "simulated RWMutex, writer and readers", 9: "simulated RWMutex, a reader writes under RLock"}
     ok = True
     for mode in sorted(by_mode):
         runs, reported = by_mode[mode]
         print("  mode %d %-45s runs %5d  race reported in %5d" % (mode, names.get(mode, "?"), runs, reported))
-        if mode in (0, 2, 4) and reported != 0:
+        if mode in (0, 2, 4, 6, 8) and reported != 0:
             ok = False
-        if mode in (1, 3) and reported != runs:
+        if mode in (1, 3, 7) and reported != runs:
             ok = False
-        if mode == 5 and reported < runs // 2:
+        # (mode 9: a writer that gets the lock between the two readers orders them, as with a real RWMutex)
+        if mode in (5, 9) and reported < runs // 2:
             ok = False
     print("violation other than the expected class:", res.get("violation"))
     ok = ok and res.get("violation") is None
